@@ -21,7 +21,9 @@ Record tables := {
   t_pool : option bytes;
   t_named : list (bytes * bytes);
   t_maxage : Z;
-  t_trust : bytes
+  t_trust : bytes;
+  t_envage : bytes;                        (* SEC_TOKEN_MAX_AGE, [] when unset *)
+  t_dur : list (bytes * option Z)          (* time.ParseDuration: string -> nanoseconds / error *)
 }.
 
 Fixpoint lookup2 (t : list (bytes * bytes * bytes)) (a b : bytes) : bytes :=
@@ -44,6 +46,8 @@ Definition env_of (tb : tables) : env :=
      e_pool := t_pool tb;
      e_named := lookup1 (t_named tb);
      e_max_age := t_maxage tb;
+     e_env_max_age := t_envage tb;
+     e_parse_dur := fun b => match lookup1 (t_dur tb) b with Some v => v | None => None end;
      e_trust := t_trust tb |}.
 
 (* every dot-separated part of [tok] that is valid base64url has a JSON table entry *)
@@ -53,6 +57,10 @@ Definition json_complete (tb : tables) (tok : bytes) : bool :=
                     | None => true
                     end) (firstn 3 (split_on dot tok)).
 Definition hit (b : bytes) : bool := negb (bytes_eqb b miss).
+(* the ParseDuration table covers the string the model asks about *)
+Definition dur_complete (tb : tables) : bool :=
+  is_nil (t_envage tb) ||
+  match lookup1 (t_dur tb) (t_envage tb ++ [x73]) with Some _ => true | None => false end.
 
 Inductive case :=
 | CServer (tb : tables) (now : Z) (rb : bytes) (frames : list mframe)
@@ -62,7 +70,7 @@ Inductive case :=
 | CVerify (tb : tables) (now : Z) (tok : bytes) (obs : option (bytes * bytes * bytes * Z * Z))
 | CValidate (tb : tables) (now : Z) (claimed tok : bytes) (obs : option (bytes * bytes * bytes * bytes))
 | CLoad (tb : tables) (tok : bytes) (obs : loaded)
-| CTiming (now maxage : Z) (exp iat : jv) (ok : bool)
+| CTiming (now maxage : Z) (envage : bytes) (dur : list (bytes * option Z)) (exp iat : jv) (ok : bool)
 | CB64 (s : bytes) (obs : option bytes)
 | CTrim (s : bytes) (obs : bytes)
 | CKey (tb : tables) (kid : bytes) (obs : option bytes).
@@ -84,7 +92,7 @@ Definition opt_eqb {A} (f : A -> A -> bool) (a b : option A) : bool :=
 Definition server_tables_ok (tb : tables) (now : Z) (rb : bytes) (frames : list mframe) : bool :=
   match srv_step1 (reader_of frames) with
   | S1Ok claimed tok ra _ =>
-      json_complete tb tok &&
+      json_complete tb tok && dur_complete tb &&
       match validate_token (env_of tb) now claimed tok with
       | Some v => hit (v_sig v) && hit (v_K v)
                   && hit (c_mac (crypto_of tb) (v_K v) (mac_T (v_cid v) (v_sid v) ra rb))
@@ -113,7 +121,7 @@ Definition check_case (c : case) : bool :=
        | CFail => negb accept
        end) && list_eqb (list_eqb frame_eqb) (c_sent r) sent
   | CVerify tb now tok obs =>
-      json_complete tb (trim_space_go tok) &&
+      json_complete tb (trim_space_go tok) && dur_complete tb &&
       match verify_id_token (env_of tb) now tok, obs with
       | Some c, Some (sub, iss, scope, exp, iat) =>
           bytes_eqb (ic_sub c) sub && bytes_eqb (ic_iss c) iss && bytes_eqb (ic_scope c) scope
@@ -122,7 +130,7 @@ Definition check_case (c : case) : bool :=
       | _, _ => false
       end
   | CValidate tb now claimed tok obs =>
-      json_complete tb tok &&
+      json_complete tb tok && dur_complete tb &&
       match validate_token (env_of tb) now claimed tok, obs with
       | Some v, Some (cid, sid, sig, K) =>
           hit (v_sig v) && hit (v_K v) && bytes_eqb (v_cid v) cid && bytes_eqb (v_sid v) sid
@@ -137,8 +145,11 @@ Definition check_case (c : case) : bool :=
       | None, None => true
       | _, _ => false
       end
-  | CTiming now maxage exp iat ok =>
-      Bool.eqb (timing_ok now maxage
+  | CTiming now maxage envage dur exp iat ok =>
+      let tb := {| t_sign := []; t_kdf := []; t_mac := []; t_skey := []; t_json := []; t_pool := None;
+                   t_named := []; t_maxage := maxage; t_trust := []; t_envage := envage; t_dur := dur |} in
+      dur_complete tb &&
+      Bool.eqb (timing_ok now (resolved_max_age (env_of tb))
                   {| j_kid := JAbsent; j_exp := exp; j_iat := iat; j_sub := JAbsent; j_iss := JAbsent; j_scope := JAbsent |}) ok
   | CB64 s obs => opt_eqb bytes_eqb (b64url_decode s) obs
   | CTrim s obs => bytes_eqb (trim_space_go s) obs
@@ -155,6 +166,6 @@ Definition mismatches (cs : list case) : list nat := mism 0 cs.
 (* constructors used by the generated case files *)
 Definition mk_claims (kid exp iat sub iss scope : jv) : claims :=
   {| j_kid := kid; j_exp := exp; j_iat := iat; j_sub := sub; j_iss := iss; j_scope := scope |}.
-Definition mk_tables sign kdf mac skey json pool named maxage trust : tables :=
+Definition mk_tables sign kdf mac skey json pool named maxage trust envage dur : tables :=
   {| t_sign := sign; t_kdf := kdf; t_mac := mac; t_skey := skey; t_json := json; t_pool := pool;
-     t_named := named; t_maxage := maxage; t_trust := trust |}.
+     t_named := named; t_maxage := maxage; t_trust := trust; t_envage := envage; t_dur := dur |}.
